@@ -351,6 +351,11 @@ func (p *pgBoundValue) GetData(setting config.ColumnEncryptionSetting) ([]byte, 
 
 			decoded, err := utils.DecodeEscaped(p.data)
 			if err != nil {
+				if err == utils.ErrDecodeOctalString {
+					// not an escaped bytea value but a plain string (for example one with a line break):
+					// process it as is, like PgQueryDBDataCoder.Decode does for literals
+					return p.data, nil
+				}
 				return p.data, err
 			}
 			return decoded, nil
